@@ -1,0 +1,75 @@
+//go:build verif
+
+package kv
+
+import (
+	"context"
+	"sort"
+	"time"
+)
+
+// Verification hooks (build tag "verif"). All of them are inert until a
+// harness installs a callback.
+var (
+	// VerifS3 lets a harness substitute the object-store client.
+	VerifS3 func(S3 S3Interface, storage *S3BucketInfo) S3Interface
+	// VerifWhen lets a harness choose the creation time of new versions.
+	VerifWhen func(when time.Time) time.Time
+	// VerifRootOrder lets a harness choose the order in which versions are merged.
+	VerifRootOrder func(roots []string) []string
+	// VerifRetireOrder lets a harness choose the order in which merged parents are retired.
+	VerifRetireOrder func(roots []string) []string
+)
+
+func verifS3(S3 S3Interface, storage *S3BucketInfo) S3Interface {
+	if VerifS3 == nil {
+		return S3
+	}
+	return VerifS3(S3, storage)
+}
+
+func verifWhen(when time.Time) time.Time {
+	if VerifWhen == nil {
+		return when
+	}
+	return VerifWhen(when)
+}
+
+func verifRootOrder(roots []string) []string {
+	if VerifRootOrder == nil {
+		return roots
+	}
+	return VerifRootOrder(roots)
+}
+
+// verifRetire re-enters moveMergedRoots once per parent, in harness-chosen
+// order, so that the original loop body does all the work.
+func verifRetire(ctx context.Context, s *DB, newRoot string, mergedRoots map[string][]byte) bool {
+	if VerifRetireOrder == nil || len(mergedRoots) <= 1 {
+		return false
+	}
+	keys := make([]string, 0, len(mergedRoots))
+	for k := range mergedRoots {
+		keys = append(keys, k)
+	}
+	sort.Strings(keys)
+	for _, k := range VerifRetireOrder(keys) {
+		s.moveMergedRoots(ctx, newRoot, map[string][]byte{k: mergedRoots[k]})
+	}
+	return true
+}
+
+// VerifLegacySeal produces ciphertext in the legacy hand-rolled box format.
+func VerifLegacySeal(passphrase []byte, message []byte) ([]byte, error) {
+	var key [32]byte
+	copy(key[:], deriveKey(passphrase, nil))
+	n, err := nonce(append(append([]byte{}, message...), key[:]...), encryptNonceLen)
+	if err != nil {
+		return nil, err
+	}
+	c, err := crypto_secretbox_easy(message, n, &key)
+	if err != nil {
+		return nil, err
+	}
+	return append(n, c...), nil
+}
